@@ -169,8 +169,43 @@ private:
     uint32_t       m_magic{0};
 };
 
+// BigTracked: a value larger than 256 bytes (size-dependent code paths), with a Tracked in the middle and padding derived from
+// the payload on both sides: a torn copy (front half from one write, back half from another) is recognisable as such.
+struct BigTracked
+{
+    static constexpr uint64_t kTorn = 0xBAD0'0000'0000'0000ull;
+    unsigned char front[168];
+    Tracked       t;
+    unsigned char back[168];
+    BigTracked() : t() { fill(0); }
+    explicit BigTracked(uint64_t p) : t(p) { fill(p); }
+    void fill(uint64_t p)
+    {
+        for (size_t i = 0; i < sizeof front; ++i)
+        {
+            front[i] = static_cast<unsigned char>((p * 131 + i) & 0xff);
+            back[i]  = static_cast<unsigned char>((p * 137 + i * 3) & 0xff);
+        }
+    }
+    uint64_t payload() const
+    {
+        const uint64_t p = t.payload();
+        for (size_t i = 0; i < sizeof front; ++i)
+            if (front[i] != static_cast<unsigned char>((p * 131 + i) & 0xff) || back[i] != static_cast<unsigned char>((p * 137 + i * 3) & 0xff))
+                return kTorn | (p & 0xffff'ffffull); // a value nobody ever stored
+        return p;
+    }
+};
+static_assert(sizeof(BigTracked) > 256, "BigTracked must exceed 256 bytes");
+
 template<typename V>
 struct value_conv;
+template<>
+struct value_conv<BigTracked>
+{
+    static BigTracked make(uint64_t p) { return BigTracked(p); }
+    static uint64_t   read(const BigTracked& v) { return v.payload(); }
+};
 template<>
 struct value_conv<Tracked>
 {
